@@ -93,6 +93,9 @@ class Unit:
     carrier: Carrier
     functions: list = field(default_factory=list)
     requires: list = field(default_factory=list)   # [(class, function, statement text)] that must still be in the source
+    object_types: list = field(default_factory=list)  # types whose values are mutable objects (tensors, tensordicts)
+    item_get: dict = field(default_factory=dict)   # (container type, key type) -> (Coq function, result type)
+    item_set: dict = field(default_factory=dict)   # (container type, key type, value type) -> Coq function
 
 
 @dataclass
@@ -196,6 +199,9 @@ def alpha_dump(node, keep=()) -> str:
     """ast.dump with local names (ast.Name) renamed by order of first occurrence; `self` and names in
     `keep` stay.  Two statements with the same alpha_dump differ only by a consistent renaming of locals."""
     node = copy.deepcopy(node)
+    for n in ast.walk(node):
+        if isinstance(n, ast.Assert):
+            n.msg = None                 # the message of an assert is not part of its shape
     names = {}
     for n in ast.walk(node):
         if isinstance(n, ast.Name) and n.id != "self" and n.id not in keep:
@@ -229,6 +235,9 @@ class FnTranslator:
         self.file = file
         self.ntmp = 0
         self.ndraw = 0
+        self.draw_of = {}           # id(AST node of a draw) -> index of its parameter (a node translated twice,
+                                    # e.g. in a duplicated continuation, is still ONE draw of the execution)
+        self.in_loop = 0
         self.no_hoist = 0
         self.fuel_var = "fuel"
         self.uses_fuel = False
@@ -306,11 +315,13 @@ class FnTranslator:
 
     def expr_shape(self, sh, e, env, k):
         if sh == "draw":
-            if self.ndraw >= self.spec.draws:
+            if self.in_loop or self.fuel_var != "fuel":
+                self.bad(e, "a random draw inside a loop / a recursive function (one parameter would stand for many draws)")
+            idx = self.draw_of.setdefault(id(e), len(self.draw_of))
+            if idx >= self.spec.draws:
                 self.bad(e, f"more random draws than the {self.spec.draws} declared for this function")
-            name = f"draw_{self.ndraw}"
-            self.ndraw += 1
-            return k(name, "T")
+            self.ndraw = len(self.draw_of)
+            return k(f"draw_{idx}", "T")
         if isinstance(sh, tuple) and sh[0] == "const":
             return k(sh[1], sh[2])
         self.bad(e, f"unknown expression shape handler {sh!r}")
@@ -533,21 +544,59 @@ class FnTranslator:
             return f
         return self.short_circuit([part(o) for o in e.values], env, k, e, isinstance(e.op, ast.And))
 
+    def e_List(self, e, env, k):
+        if e.elts:
+            self.bad(e, "non-empty list display")
+        return k("nil", ("list", None))      # element type fixed by the context (conditional expression)
+
     def e_IfExp(self, e, env, k):
         def test(c0, t0):
             if t0 != "bool":
                 self.bad(e, "conditional expression on a non-boolean test")
             (a, ta), (b, tb) = self.pure_expr(e.body, env), self.pure_expr(e.orelse, env)
+            if ta == ("list", None) and is_list(tb):
+                ta = tb
+            if tb == ("list", None) and is_list(ta):
+                tb = ta
             if ta != tb:
                 self.bad(e, f"conditional expression with branches of types {ta} and {tb}")
             return k(f"if {c0} then {par(a)} else {par(b)}", ta)
-        return self.expr(e.test, env, test)
+
+        def test_m(c0, t0):
+            # a branch needs a bind: each branch is evaluated inside its own arm, the value is bound afterwards
+            if t0 != "bool":
+                self.bad(e, "conditional expression on a non-boolean test")
+            tys = []
+            arm = lambda x: self.expr(x, env, lambda c, t: (tys.append(t), Term(c, True))[1])
+            a, b = arm(e.body), arm(e.orelse)
+            ta, tb = tys
+            if ta == ("list", None) and is_list(tb):
+                ta = tb
+            if tb == ("list", None) and is_list(ta):
+                tb = ta
+            if ta != tb or ta == ("list", None):
+                self.bad(e, f"conditional expression with branches of types {ta} and {tb}")
+            t = self.tmp()
+            return let_(t, if_(c0, a, b), k(t, ta))
+
+        def dispatch(c0, t0):
+            save = (self.ntmp, self.ndraw)
+            try:
+                return test(c0, t0)
+            except NeedsHoist:
+                self.ntmp, self.ndraw = save
+                if self.no_hoist:
+                    raise
+                return test_m(c0, t0)
+        return self.expr(e.test, env, dispatch)
 
     def e_Subscript(self, e, env, k):
         if isinstance(e.slice, ast.Slice):
             return self.slice_load(e, env, k)
         return self.expr(e.value, env, lambda lc, lt: self.expr(e.slice, env, lambda ic, it: (
             self.hoist(e, f"zget {par(lc)} {par(ic)}", lt[1], k) if is_list(lt) and it == "Z"
+            else k(f"{self.unit.item_get[(lt, it)][0]} {par(ic)} {par(lc)}", self.unit.item_get[(lt, it)][1])
+            if (lt, it) in self.unit.item_get
             else self.bad(e, f"indexing a value of type {lt} with an index of type {it}"))))
 
     def slice_bounds(self, sl, env, node):
@@ -592,6 +641,9 @@ class FnTranslator:
                         return k(f"py_{f.id} {par(self.op_T('ltb', e))} {par(ac)} {par(bc)}", "T")
                     self.bad(e, f"{f.id} on operands of type {t}")
                 return self.exprs(list(e.args), env, mm)
+            if f.id == "list" and len(e.args) == 1:
+                return self.expr(e.args[0], env, lambda c, t: k(c, t) if is_list(t) and t[1] is not None
+                                 else self.bad(e, f"list() of a value of type {t}"))     # a copy: same value
             if f.id == "len" and len(e.args) == 1:
                 return self.expr(e.args[0], env, lambda c, t: k(f"zlen {par(c)}", "Z") if is_list(t)
                                  else self.bad(e, f"len of a value of type {t}"))
@@ -735,6 +787,47 @@ class FnTranslator:
             self.bad(s, f"statement node {type(s).__name__} is outside the subset")
         return m(s, rest, env, ctx)
 
+    @staticmethod
+    def owned(env):
+        return env.get("#owned", frozenset())
+
+    @staticmethod
+    def set_owned(env, name, flag):
+        env = dict(env)
+        o = set(env.get("#owned", frozenset()))
+        (o.add if flag else o.discard)(name)
+        env["#owned"] = frozenset(o)
+        return env
+
+    @staticmethod
+    def is_fresh(value_expr):
+        """the expression creates a new object: <e>.clone()"""
+        return (isinstance(value_expr, ast.Call) and isinstance(value_expr.func, ast.Attribute)
+                and value_expr.func.attr == "clone" and not value_expr.args and not value_expr.keywords)
+
+    @staticmethod
+    def plain_assigned(stmts):
+        """locals that the statements (re)bind by a plain assignment (not by an augmented / item assignment)"""
+        out = set()
+        for st in stmts:
+            for n in ast.walk(st):
+                if isinstance(n, ast.Assign):
+                    for t in n.targets:
+                        for x in ast.walk(t):
+                            if isinstance(x, ast.Name) and isinstance(t, (ast.Name, ast.Tuple, ast.List)):
+                                out.add(x.id)
+                elif isinstance(n, ast.AnnAssign) and isinstance(n.target, ast.Name):
+                    out.add(n.target.id)
+                elif isinstance(n, ast.For):
+                    for x in ast.walk(n.target):
+                        if isinstance(x, ast.Name):
+                            out.add(x.id)
+        return out
+
+    def is_object(self, t):
+        """types whose values are mutable Python objects (in-place updates need an owned reference)"""
+        return t in self.unit.object_types
+
     def bind_var(self, name, env, typ, node):
         """env after assigning `name` (a local or `self.attr`)"""
         env = dict(env)
@@ -783,10 +876,26 @@ class FnTranslator:
             if isinstance(t, tuple) and t[0] == "tuple":
                 self.bad(node, "assignment of a tuple to one name")
             env2, cn = self.bind_var(name, env, t, node)
+            if not name.startswith("self."):
+                env2 = self.set_owned(env2, name, self.is_fresh(value_expr))
+            elif self.is_object(t) and isinstance(value_expr, ast.Name):
+                env2 = self.set_owned(env2, value_expr.id, False)      # stored in a field: no longer exclusively ours
             return let_(cn, Term(c, True), self.block(rest, env2, ctx))
         return self.expr(value_expr, env, bound)
 
     def _store(self, lname, ic, it, vc, vt, node, rest, env, ctx):
+        if lname in env and (env[lname][1], it, vt) in self.unit.item_set:
+            # <tensordict>[<key>] = <tensor> : in-place update of an object, needs an exclusively owned reference
+            if lname not in self.owned(env):
+                self.bad(node, f"item assignment on `{lname}`, which may be shared with another reference "
+                               f"(only a local bound to a fresh <e>.clone() is updated in place)")
+            fn = self.unit.item_set[(env[lname][1], it, vt)]
+            env2, cn = self.bind_var(lname, env, env[lname][1], node)
+            env2 = self.set_owned(env2, lname, True)
+            val = node.value if isinstance(node, (ast.Assign, ast.AnnAssign)) else None
+            if isinstance(val, ast.Name):
+                env2 = self.set_owned(env2, val.id, False)     # the stored object is now reachable from the container
+            return let_(cn, Term(f"{fn} {par(ic)} {env[lname][0]} {par(vc)}", True), self.block(rest, env2, ctx))
         if lname not in env or not is_list(env[lname][1]):
             self.bad(node, f"item assignment on `{lname}`, which is not a list")
         if it != "Z" or env[lname][1][1] != vt:
@@ -842,7 +951,13 @@ class FnTranslator:
         def chk(c, t):
             if t not in ("Z", "T"):
                 self.bad(s, f"augmented assignment on a value of type {t} (only int / float)")
-            env2, cn = self.bind_var(self.target_name(s.target, s), env, t, s)
+            tn = self.target_name(s.target, s)
+            if self.is_object(t) and tn not in self.owned(env):
+                self.bad(s, f"in-place update of `{tn}`, which may be shared with another reference "
+                            f"(only a local bound to a fresh <e>.clone() is updated in place)")
+            env2, cn = self.bind_var(tn, env, t, s)
+            if self.is_object(t):
+                env2 = self.set_owned(env2, tn, True)
             return let_(cn, Term(c, True), self.block(rest, env2, ctx))
         return self.expr(new, env, chk)
 
@@ -917,6 +1032,7 @@ class FnTranslator:
                     env2[v] = ea[v]
                 elif v in env2 and not v.startswith("self."):
                     del env2[v]          # possibly unbound afterwards
+            env2["#owned"] = (self.owned(ea) & self.owned(eb)) - (set(may) - set(joined))
             names = [ea[v][0] for v in joined]
             yield_ = Ctx(ret=None, fall=lambda e2: Term(tuple_val([e2[v][0] for v in joined]), True),
                          brk=None, cont=None)
@@ -935,7 +1051,9 @@ class FnTranslator:
             if isinstance(n, ast.Return):
                 self.bad(n, "return inside a loop")
         may = self.may_assign(list(s.body))
-        state = [v for v in env if v in may]            # defined before the loop and modified in it, in env order
+        env = dict(env)
+        env["#owned"] = self.owned(env) - self.plain_assigned(list(s.body))
+        state = [v for v in env if v in may and v != "#owned"]   # defined before the loop and modified in it, in env order
         names = [env[v][0] for v in state]
         # variables first assigned inside the body are local to one iteration
         env_after = {k2: v2 for k2, v2 in env.items()}
@@ -945,6 +1063,9 @@ class FnTranslator:
             for v in state:
                 if e2[v][1] != env[v][1]:
                     self.bad(s, f"loop variable `{v}` changes type inside the loop")
+            lost = (self.owned(env) & set(state)) - self.owned(e2)
+            if lost:
+                self.bad(s, f"`{sorted(lost)[0]}` is updated in place in the loop but becomes shared inside it")
         loop_ctx = Ctx(ret=None,
                        fall=lambda e2: (chk_state(e2), Term(f"inl {par(st_val(e2))}", True))[1],
                        brk=lambda e2: (chk_state(e2), Term(f"inr {par(st_val(e2))}", True))[1],
@@ -955,7 +1076,11 @@ class FnTranslator:
                 self.bad(s, "while on a non-boolean test")
             body = self.block(list(s.body), env, loop_ctx)
             return if_(c, body, Term(f"inr {par(st_val(env))}", True))
-        step = self.expr(s.test, env, test)
+        self.in_loop += 1
+        try:
+            step = self.expr(s.test, env, test)
+        finally:
+            self.in_loop -= 1
         loop = Term(f"while_loop {self.fuel_var} (fun {tuple_pat(names)} =>\n{indent(mon(step))})\n{par(st_val(env))}", False)
         return let_(tuple_pat(names), loop, self.block(rest, env_after, ctx))
 
@@ -994,18 +1119,31 @@ class FnTranslator:
             self.bad(s, "range() bound that is not an int")
         lo, hi = ("0%Z", bounds[0][0]) if len(bounds) == 1 else (bounds[0][0], bounds[1][0])
         may = self.may_assign(list(s.body))
+        env = dict(env)
+        env["#owned"] = self.owned(env) - self.plain_assigned(list(s.body))
         if s.target.id in may:
             self.bad(s, "the loop variable is assigned inside the loop")
-        state = [v for v in env if v in may]
+        state = [v for v in env if v in may and v != "#owned"]
         names = [env[v][0] for v in state]
         st_val = lambda e2: tuple_val([e2[v][0] for v in state])
         ivar = "v_" + s.target.id
         env_in = dict(env)
         env_in[s.target.id] = (ivar, "Z")
-        loop_ctx = Ctx(ret=None, fall=lambda e2: Term(f"inl {par(st_val(e2))}", True),
-                       brk=lambda e2: Term(f"inr {par(st_val(e2))}", True),
-                       cont=lambda e2: Term(f"inl {par(st_val(e2))}", True))
-        body = self.block(list(s.body), env_in, loop_ctx)
+        def chk_own(e2):
+            lost = (self.owned(env) & set(state)) - self.owned(e2)
+            if lost:
+                self.bad(s, f"`{sorted(lost)[0]}` is updated in place in the loop but becomes shared inside it")
+            for v in state:
+                if e2[v][1] != env[v][1]:
+                    self.bad(s, f"loop variable `{v}` changes type inside the loop")
+        loop_ctx = Ctx(ret=None, fall=lambda e2: (chk_own(e2), Term(f"inl {par(st_val(e2))}", True))[1],
+                       brk=lambda e2: (chk_own(e2), Term(f"inr {par(st_val(e2))}", True))[1],
+                       cont=lambda e2: (chk_own(e2), Term(f"inl {par(st_val(e2))}", True))[1])
+        self.in_loop += 1
+        try:
+            body = self.block(list(s.body), env_in, loop_ctx)
+        finally:
+            self.in_loop -= 1
         loop = Term(f"for_range {par(lo)} {par(hi)} (fun {ivar} {tuple_pat(names)} =>\n{indent(mon(body))})\n{par(st_val(env))}", False)
         env_after = {k2: v2 for k2, v2 in env.items() if k2 != s.target.id}
         return let_(tuple_pat(names), loop, self.block(rest, env_after, ctx))
@@ -1091,8 +1229,8 @@ class FnTranslator:
                                          writes=writes)
             self.fuel_var = "fuel'"
         term = self.block(body, env, ctx)
-        if self.ndraw != spec.draws:
-            self.bad(fdef, f"{self.ndraw} random draws found, the client declares {spec.draws}")
+        if len(self.draw_of) != spec.draws:
+            self.bad(fdef, f"{len(self.draw_of)} random draws found, the client declares {spec.draws}")
         if self.uses_fuel and not spec.fuel:
             self.bad(fdef, "loops / recursion in a function declared without fuel")
         binder = " ".join(f"({n} : {self.coq_type(t)})" for n, t in coq_params)
@@ -1331,6 +1469,92 @@ CLIENTS["C03"] = Client(
             returns=("list", "Z"), params={"max_kernel_list": ("list", "Z")},
             expr_matchers=[(is_np_floor_div, np_floor_div)],
             theorem="C03_translated_calc_max_kernel_sizes_is_model")])])
+
+
+# ---- C10: MultiStepReplayBuffer._get_n_step_info ---------------------------------------------------
+TR_T = ("opaque", "Tr")          # a TensorDict transition (one batch row per environment)
+KEY_T = ("opaque", "key")        # the name of a TensorDict entry
+
+
+def is_clone(e, env):
+    return FnTranslator.is_fresh(e)
+
+
+def clone_id(tr, e, env, k):
+    """<e>.clone(): a new object with the same value (the translator tracks that the bound local is exclusively owned)"""
+    return tr.expr(e.func.value, env, lambda c, t: k(c, t) if tr.is_object(t)
+                   else tr.bad(e, f".clone() of a value of type {t}"))
+
+
+def is_bool_any(e, env):
+    return (isinstance(e, ast.Call) and not e.args and isinstance(e.func, ast.Attribute) and e.func.attr == "any"
+            and isinstance(e.func.value, ast.Call) and not e.func.value.args
+            and isinstance(e.func.value.func, ast.Attribute) and e.func.value.func.attr == "bool")
+
+
+def bool_any(tr, e, env, k):
+    return tr.expr(e.func.value.func.value, env, lambda c, t: k(f"tany {par(c)}", "bool") if t == "T"
+                   else tr.bad(e, f".bool().any() of a value of type {t}"))
+
+
+def is_times_gamma_pow(e, env):
+    return (isinstance(e, ast.BinOp) and isinstance(e.op, ast.Mult) and isinstance(e.right, ast.BinOp)
+            and isinstance(e.right.op, ast.Pow) and ast.unparse(e.right.left) == "self.gamma")
+
+
+def times_gamma_pow(tr, e, env, k):
+    """<tensor> * (self.gamma ** <int>)"""
+    return tr.expr(e.left, env, lambda ac, at: tr.expr(e.right.right, env, lambda bc, bt: (
+        k(f"tscale {par(ac)} (gpow {par(bc)})", "T") if at == "T" and bt == "Z"
+        else tr.bad(e, f"<tensor> * self.gamma ** <int> on operands of types {at}, {bt}"))))
+
+
+# abstracted (trusted shape table): the one-off detection of the entry names on the first call.  It only reads the
+# first transition's keys and fixes self.done_key; the translated code takes the three entry names as given.
+C10_INFO_SKIPPED = ["""
+if not self.initialized:
+    assert (
+        self.reward_key in self.n_step_buffer[0]
+    ), "Reward key not found in transition"
+    assert (
+        self.ns_key in self.n_step_buffer[0]
+    ), "Next observation key not found in transition"
+
+    done_key = None
+    for key in ["done", "termination", "terminated"]:
+        if key in self.n_step_buffer[0]:
+            done_key = key
+            break
+
+    assert done_key is not None, "No done/termination key found in transition"
+    self.done_key = done_key
+"""]
+
+CLIENTS["C10"] = Client(
+    pid="C10",
+    imports="From Coq Require Import List ZArith Bool.\nImport ListNotations.\nFrom AgileV Require Import TR.PyLib.",
+    equiv="coq/gen/C10_equiv.v",
+    units=[Unit(
+        file="agilerl/components/replay_buffer.py", section="GenNStep",
+        context=("Context {Tr Ten Sc key : Type}.\n"
+                 "Variables (k_reward k_done k_ns : key).        (* self.reward_key, self.done_key, self.ns_key *)\n"
+                 "Variable tget : key -> Tr -> Ten.              (* td[key] *)\n"
+                 "Variable tset : key -> Tr -> Ten -> Tr.        (* td[key] = tensor, on an owned td *)\n"
+                 "Variable tany : Ten -> bool.                   (* t.bool().any() *)\n"
+                 "Variable tadd : Ten -> Ten -> Ten.             (* t + u (elementwise) *)\n"
+                 "Variable tscale : Ten -> Sc -> Ten.            (* t * python float *)\n"
+                 "Variable gpow : Z -> Sc.                       (* self.gamma ** k *)"),
+        carrier=Carrier(T="Ten", ops={"add": "tadd"}),
+        object_types=["T", TR_T],
+        item_get={(TR_T, KEY_T): ("tget", "T")}, item_set={(TR_T, KEY_T, "T"): "tset"},
+        functions=[FnSpec(
+            cls="MultiStepReplayBuffer", name="_get_n_step_info", coq="MultiStepReplayBuffer_get_n_step_info",
+            fields=[("n_step_buffer", ("list", TR_T))],
+            field_consts={"reward_key": ("k_reward", KEY_T), "done_key": ("k_done", KEY_T), "ns_key": ("k_ns", KEY_T)},
+            returns=TR_T,
+            expr_matchers=[(is_clone, clone_id), (is_bool_any, bool_any), (is_times_gamma_pow, times_gamma_pow)],
+            stmt_shapes=[(stmt_like(t), skip_stmt) for t in C10_INFO_SKIPPED],
+            theorem="C10_translated_n_step_info_is_model")])])
 
 
 def translate_pid(pid: str, repo: Path):
